@@ -358,6 +358,12 @@ func (w *world) opLose(t *inst, op Op) {
 		w.stats.Inc("probe.repair-other-version")
 	}
 	rep := util.NewMerklePatriciaTrie(t.db, util.Sequence(rver), root, w.newCache())
+	if op.N%3 == 2 && rver == t.ver {
+		// the trie object that has been reading this state all along does the repair: its cache still holds
+		// nodes that the store has lost
+		rep = t.mpt
+		w.stats.Inc("probe.repair-by-the-warm-trie-object")
+	}
 	var rerr error
 	if w.guard("MergeDB", func() { rerr = rep.MergeDB(donor, root, nil) }) {
 		return
